@@ -160,7 +160,7 @@ fn key(toks: &[Tok]) -> Key {
 pub fn run(tier: Tier) -> i32 {
     let mut rep = Report::new("C12", tier);
     let us = u_space(tier);
-    let max_len = tier.pick(6, 7);
+    let max_len = tier.pick(6, 8);
     let mut st = par_explore(us.len(), |ui, st| {
         let u = &us[ui];
         let mut sentences = all_strings(&u.alphabet, max_len);
